@@ -58,7 +58,7 @@ var goSrcFuncs = []string{
 	"Array.AsFloat", "Array.AsInteger", "Array.AsUint64",
 	"ParsedJson.get_current_loc", "ParsedJson.write_tape", "ParsedJson.writeTapeTagVal", "ParsedJson.writeTapeTagValFlags",
 	"ParsedJson.write_tape_s64", "ParsedJson.write_tape_double", "ParsedJson.annotate_previousloc", "parseString", "addNumber",
-	"min", "max", "fmtF", "appendFloatF", "appendFloat", "Serializer.indexString", "Object.FindKey", "Object.FindPath",
+	"min", "max", "fmtF", "appendFloatF", "appendFloat", "Serializer.indexString", "Object.FindKey", "Object.FindPath", "Iter.Object", "Iter.Array", "Iter.Root", "ParsedJson.stringAt", "Iter.String", "floatToString", "Iter.StringCvt", "Object.NextElement",
 }
 
 // functions in which constant expressions are folded (as the compiler does) before printing; the functions translated
@@ -221,7 +221,7 @@ func tyOfTypeExpr(e ast.Expr) gty {
 			return tyKeys
 		}
 	case *ast.StarExpr:
-		if id, ok := t.X.(*ast.Ident); ok && id.Name == "Element" {
+		if id, ok := t.X.(*ast.Ident); ok && (id.Name == "Element" || id.Name == "Iter" || id.Name == "Object" || id.Name == "Array") {
 			return tyPtr
 		}
 	case *ast.Ellipsis:
@@ -389,6 +389,18 @@ func (t *gsTr) expr(e ast.Expr, want gty) (string, gty) {
 			}
 			return t.untyped(e, strconv.Itoa(int([]rune(r)[0])), want)
 		}
+		if x.Kind == token.STRING && (want == tyBytes || want == tyUnk) {
+			// a string is its bytes
+			str, err := strconv.Unquote(x.Value)
+			if err != nil {
+				gsDie(e, "string literal")
+			}
+			var bs []string
+			for _, c := range []byte(str) {
+				bs = append(bs, strconv.Itoa(int(c)))
+			}
+			return fmt.Sprintf("(.litB [%s] /- %s -/)", strings.Join(bs, ", "), strings.ReplaceAll(x.Value, "-/", "- /")), tyBytes
+		}
 		if x.Kind != token.INT {
 			gsDie(e, "literal kind")
 		}
@@ -423,7 +435,7 @@ func (t *gsTr) expr(e ast.Expr, want gty) (string, gty) {
 				return "(.bool true /- ErrPathNotFound -/)", tyErr // a package-level error value: non-nil
 			}
 		}
-		if t.kinds[x.Name] == "Element" && want == tyPtr {
+		if t.kinds[x.Name] != "" && x.Name != t.recv && want == tyPtr {
 			// the pointer itself, as a result: nil or not
 			t.aliasParams[x.Name+"==nil"] = true
 			return fmt.Sprintf("(.not (.v %s)) /- %s -/", strconv.Quote(x.Name+"==nil"), x.Name), tyPtr
@@ -780,6 +792,38 @@ func (t *gsTr) expr(e ast.Expr, want gty) (string, gty) {
 				gsDie(e, "Uint64 operand")
 			}
 			return fmt.Sprintf("(.le64 %s)", a), tyU64
+		}
+		if sel, ok := x.Fun.(*ast.SelectorExpr); ok && sel.Sel.Name == "Type" && len(x.Args) == 0 {
+			if inner, ok := sel.X.(*ast.CallExpr); ok {
+				// <call returning a Tag>.Type(): func (t Tag) Type() Type { return TagToType[t] }, pinned by the shape check
+				fd := t.p.funcs["Tag.Type"]
+				if fd == nil || nows(src(fd.Body)) != "{returnTagToType[t]}" {
+					gsDie(e, "Tag.Type has an unexpected body")
+				}
+				a, aty := t.expr(inner, tyU8)
+				if aty != tyU8 {
+					gsDie(e, "Tag.Type operand")
+				}
+				return fmt.Sprintf("(.tbl \"TagToType\" %s)", a), tyU8
+			}
+		}
+		if f := nows(src(x.Fun)); (f == "strconv.FormatInt" || f == "strconv.FormatUint") && len(x.Args) == 2 && nows(src(x.Args[1])) == "10" {
+			// the decimal text as a fresh string: AppendInt/AppendUint onto nothing
+			wantA, name := tyInt, "AppendInt"
+			if f == "strconv.FormatUint" {
+				wantA, name = tyU64, "AppendUint"
+			}
+			v, vty := t.expr(x.Args[0], wantA)
+			if vty != wantA {
+				gsDie(e, "integer formatting operand")
+			}
+			if t.lazy > 0 {
+				gsDie(e, "call under the right operand of && or ||")
+			}
+			t.ntemp++
+			tmp := fmt.Sprintf("#c%d", t.ntemp)
+			t.pre = append(t.pre, fmt.Sprintf(".extAssign [%s] %s [.nilB, %s]", strconv.Quote(tmp), strconv.Quote(name), v))
+			return fmt.Sprintf("(.v %s)", strconv.Quote(tmp)), tyBytes
 		}
 		if nows(src(x.Fun)) == "binary.PutUvarint" && len(x.Args) == 2 {
 			// n := binary.PutUvarint(tmp[:], v): by contract the encoding is written to the front of tmp; an encoding longer
@@ -1159,7 +1203,7 @@ func (t *gsTr) binary(x *ast.BinaryExpr, want gty) (string, gty) {
 		}
 	}
 	if isCmp && (x.Op == token.EQL || x.Op == token.NEQ) {
-		if id, ok := x.X.(*ast.Ident); ok && t.kinds[id.Name] == "Element" {
+		if id, ok := x.X.(*ast.Ident); ok && t.kinds[id.Name] != "" && id.Name != t.recv && !t.readonly[id.Name] {
 			if n, ok := x.Y.(*ast.Ident); ok && n.Name == "nil" {
 				// whether the caller passed nil: a named boolean input of the function (`dst = &Element{}` clears it)
 				t.aliasParams[id.Name+"==nil"] = true
@@ -1723,6 +1767,72 @@ func (t *gsTr) stmt0(s ast.Stmt, ind string) string {
 					delete(t.poison, v.Name)
 					delete(t.poison, er.Name)
 					return fmt.Sprintf(".extAssign [%s, %s, %s] %s [%s]", strconv.Quote(v.Name), strconv.Quote(er.Name), strconv.Quote(er.Name+".range"), strconv.Quote(l.name), a)
+				}
+			}
+		}
+		// dst = &Object{} | &Array{}
+		if x.Tok == token.ASSIGN && len(x.Lhs) == 1 && len(x.Rhs) == 1 && (nows(src(x.Rhs[0])) == "&Object{}" || nows(src(x.Rhs[0])) == "&Array{}") {
+			if id, ok := x.Lhs[0].(*ast.Ident); ok && "&"+t.kinds[id.Name]+"{}" == nows(src(x.Rhs[0])) {
+				n := id.Name
+				t.aliasParams[n+"==nil"] = true
+				return strings.Join([]string{
+					fmt.Sprintf(".assign %s (.bool false)", strconv.Quote(n+"==nil")),
+					fmt.Sprintf(".assign %s (.int 0)", strconv.Quote(n+".off")),
+					fmt.Sprintf(".assign %s (.int 0)", strconv.Quote(n+".lim"))}, ",\n"+ind)
+			}
+		}
+		// c := *i: a copy of the struct
+		if x.Tok == token.DEFINE && len(x.Lhs) == 1 && len(x.Rhs) == 1 {
+			if st, ok := x.Rhs[0].(*ast.StarExpr); ok {
+				if sid, ok := st.X.(*ast.Ident); ok && t.kinds[sid.Name] == "Iter" {
+					if c, ok := x.Lhs[0].(*ast.Ident); ok && t.kinds[c.Name] == "" && t.locals[c.Name] == tyUnk {
+						t.kinds[c.Name] = "Iter"
+						t.iters[c.Name] = true
+						return fmt.Sprintf(".copyStruct %s %s", strconv.Quote(c.Name), strconv.Quote(sid.Name))
+					}
+				}
+			}
+		}
+		// dst = &c for a local struct c that is not used again: dst's fields are c's from here on
+		if x.Tok == token.ASSIGN && len(x.Lhs) == 1 && len(x.Rhs) == 1 {
+			if u, ok := x.Rhs[0].(*ast.UnaryExpr); ok && u.Op == token.AND {
+				if c, ok := u.X.(*ast.Ident); ok {
+					if d, ok := x.Lhs[0].(*ast.Ident); ok && t.kinds[d.Name] != "" && t.kinds[d.Name] == t.kinds[c.Name] && d.Name != t.recv && c.Name != t.recv {
+						t.aliasParams[d.Name+"==nil"] = true
+						delete(t.kinds, c.Name)
+						delete(t.iters, c.Name) // any later mention of c is refused
+						return fmt.Sprintf(".copyStruct %s %s,\n%s.assign %s (.bool false)", strconv.Quote(d.Name), strconv.Quote(c.Name), ind, strconv.Quote(d.Name+"==nil"))
+					}
+				}
+			}
+		}
+		// dst.tape.Strings = i.tape.Strings | dst.tape.Message = i.tape.Message: the buffers of one document are shared
+		// variables here (`Strings.B`, `Message`); handing the reference on changes nothing
+		if x.Tok == token.ASSIGN && len(x.Lhs) == 1 && len(x.Rhs) == 1 {
+			l, r := nows(src(x.Lhs[0])), nows(src(x.Rhs[0]))
+			for _, f := range []string{".tape.Strings", ".tape.Message"} {
+				if strings.HasSuffix(l, f) && strings.HasSuffix(r, f) {
+					ln, rn := strings.TrimSuffix(l, f), strings.TrimSuffix(r, f)
+					if t.kinds[ln] != "" && t.kinds[rn] != "" {
+						return ".ite (.bool true) [] [] /- " + stmtText(s) + " (shared buffers) -/"
+					}
+				}
+			}
+		}
+		// dst.tape.Tape = i.tape.Tape[:e] for two different views
+		if x.Tok == token.ASSIGN && len(x.Lhs) == 1 && len(x.Rhs) == 1 {
+			if base, ok := t.isTape(x.Lhs[0]); ok {
+				if sl, ok := x.Rhs[0].(*ast.SliceExpr); ok && sl.Low == nil && sl.High != nil && !sl.Slice3 {
+					if b2, ok := t.isTape(sl.X); ok && b2 != base {
+						e, ty := t.expr(sl.High, tyInt)
+						if ty == tyU64 {
+							e, ty = "(.conv .int "+e+")", tyInt
+						}
+						if ty != tyInt {
+							gsDie(s, "slice bound type")
+						}
+						return fmt.Sprintf(".setLenFrom %s %s %s", strconv.Quote(base), strconv.Quote(b2), e)
+					}
 				}
 			}
 		}
